@@ -61,7 +61,7 @@ def to_fd(rec, seed=0, typemap=None, flip_be=None):
                 ent["n"] = e["n"]
                 ent["ty"] = tm.get(e["ty"], e["ty"])
             listed.append(ent)
-        objs = [{"p": o["p"], "has": bool(o["has"]), "n": o["n"],
+        objs = [{"p": o["p"], "has": bool(o["has"]), "n": o["n"], "sv": o.get("sv", 0),
                  "ty": (None if o["ty"] == "none" else tm.get(o["ty"], o["ty"]))} for o in s["layout"]]
         segs.append({"meta": bool(s["meta"]), "newlist": bool(s["newList"]), "be": be, "il": bool(s["il"]),
                      "listed": listed, "objs": objs, "k": s["k"]})
